@@ -9,7 +9,11 @@ use super::{
     decoder::{self, PayloadDecoder, PayloadItem, PayloadType},
     encoder, Message, MessageType,
 };
-use crate::{body::BodySize, error::ParseError, ConnectionType, Request, Response, ServiceConfig};
+use crate::{
+    body::BodySize, error::ParseError, header::{CONTENT_LENGTH, TRANSFER_ENCODING},
+    ConnectionType, Request, Response,
+    ServiceConfig,
+};
 
 bitflags! {
     #[derive(Debug, Clone, Copy)]
@@ -176,6 +180,19 @@ impl Encoder<Message<(Response<()>, BodySize)>> for Codec {
                 } else {
                     self.conn_type
                 };
+
+                // HTTP/1.0 has no chunked transfer coding; a body of unknown length can only be
+                // delimited by closing the connection
+                if self.version < Version::HTTP_11
+                    && length == BodySize::Stream
+                    && res.head().chunked()
+                {
+                    // as with chunked responses, hand-set framing headers are not used
+                    res.head_mut().headers.remove(CONTENT_LENGTH);
+                    res.head_mut().headers.remove(TRANSFER_ENCODING);
+                    res.head_mut().no_chunking(true);
+                    self.conn_type = ConnectionType::Close;
+                }
 
                 // encode message
                 self.encoder.encode(
